@@ -432,6 +432,23 @@ func (r *Raft) heartbeat(s *followerReplication, stopCh chan struct{}) {
 
 		start := time.Now()
 		if err := r.trans.AppendEntries(peer.ID, peer.Address, &req, &resp); err != nil {
+			select {
+			case <-stopCh:
+				// The peer was removed while this heartbeat was in flight and
+				// nobody reads s.notify any more (see startStopReplication).
+				quorumSize := 0
+				for _, server := range r.getLatestConfiguration().Servers {
+					if server.Suffrage == Voter {
+						quorumSize++
+					}
+				}
+				quorumSize = quorumSize/2 + 1
+				for v := range pending {
+					v.dropPeer(quorumSize)
+				}
+				return
+			default:
+			}
 			s.restoreNotify(pending)
 			nextBackoffTime := cappedExponentialBackoff(failureWait, failures, maxFailureScale, r.config().HeartbeatTimeout/2)
 			r.logger.Error("failed to heartbeat to", "peer", peer.Address, "backoff time",
